@@ -15,6 +15,7 @@
 // All randomness derives from VERIF_SEED (splitmix64, common.hh).
 #include "common.hh"
 
+#include <cmath>
 #include <OpenVolumeMesh/Mesh/PolyhedralMesh.hh>
 #include <OpenVolumeMesh/Mesh/TetrahedralMesh.hh>
 #include <OpenVolumeMesh/Mesh/HexahedralMesh.hh>
@@ -206,6 +207,21 @@ static void build(PolyMesh& m, vh::Rng& rng) {
     std::vector<HalfFaceHandle> tet = {side};
     for (size_t i = 0; i < 3; ++i) tet.push_back(get_or_add_halfface(m, {sv[(i + 1) % 3], sv[i], tip}));
     m.add_cell(tet);
+    // a closed fan of 24 tetrahedra around one axis edge (edge valence 24, two vertices of valence 25)
+    {
+        const int N = 24;
+        VertexHandle a = m.add_vertex(Vec3d(20, 20, 0)), b = m.add_vertex(Vec3d(20, 20, 1));
+        std::vector<VertexHandle> ring;
+        for (int i = 0; i < N; ++i) ring.push_back(m.add_vertex(Vec3d(20 + std::cos(6.283185307179586 * i / N), 20 + std::sin(6.283185307179586 * i / N), 0.5)));
+        for (int i = 0; i < N; ++i) {
+            VertexHandle p = ring[i], q = ring[(i + 1) % N];
+            // tet (a, b, p, q): faces oriented consistently; halffaces shared with the neighbours in the ring are re-used
+            std::vector<HalfFaceHandle> hfs = {get_or_add_halfface(m, {a, b, p}), get_or_add_halfface(m, {b, a, q}),
+                                               get_or_add_halfface(m, {a, p, q}), get_or_add_halfface(m, {b, q, p})};
+            for (auto& hf : hfs) if (m.incident_cell(hf).is_valid()) hf = m.opposite_halfface_handle(hf);
+            m.add_cell(hfs);
+        }
+    }
     // an isolated vertex, a dangling edge and a dangling face
     VertexHandle iso = m.add_vertex(Vec3d(9, 9, 9));
     VertexHandle d0 = m.add_vertex(Vec3d(8, 8, 8));
@@ -287,9 +303,13 @@ template <class M> struct Suite {
     std::vector<CellHandle> livec;
     std::vector<std::pair<HalfFaceHandle, HalfEdgeHandle>> hf_he;   // halfface with one of its halfedges (live, in a cell)
 
-    VertexHandle rv(vh::Rng& r) const { return VertexHandle(int(r.below(m.n_vertices()))); }
-    EdgeHandle re(vh::Rng& r) const { return EdgeHandle(int(r.below(m.n_edges()))); }
-    HalfEdgeHandle rhe(vh::Rng& r) const { return HalfEdgeHandle(int(r.below(m.n_halfedges()))); }
+    // "hot" entities: the edge and the vertex of highest valence (a fan of 24 cells in the polyhedral mesh) are picked
+    // every fourth time, so that code paths that only large neighbourhoods reach (size thresholds, scratch buffers)
+    // are exercised by every circulator query, single- and multi-threaded
+    int hot_e = -1, hot_v = -1;
+    VertexHandle rv(vh::Rng& r) const { if (hot_v >= 0 && r.chance(1, 4)) return VertexHandle(hot_v); return VertexHandle(int(r.below(m.n_vertices()))); }
+    EdgeHandle re(vh::Rng& r) const { if (hot_e >= 0 && r.chance(1, 4)) return EdgeHandle(hot_e); return EdgeHandle(int(r.below(m.n_edges()))); }
+    HalfEdgeHandle rhe(vh::Rng& r) const { if (hot_e >= 0 && r.chance(1, 4)) return HalfEdgeHandle(2 * hot_e + int(r.below(2))); return HalfEdgeHandle(int(r.below(m.n_halfedges()))); }
     FaceHandle rf(vh::Rng& r) const { return FaceHandle(int(r.below(m.n_faces()))); }
     HalfFaceHandle rhf(vh::Rng& r) const { return HalfFaceHandle(int(r.below(m.n_halffaces()))); }
     CellHandle rc(vh::Rng& r) const { return CellHandle(int(r.below(m.n_cells()))); }
@@ -307,6 +327,9 @@ template <class M> struct Suite {
             if (m.incident_cell(hf).is_valid()) hf_he.emplace_back(hf, m.halfface(hf).halfedges()[size_t(hf.idx()) % m.halfface(hf).halfedges().size()]);
         }
         for (auto c : m.cells()) if (!m.is_deleted(c)) livec.push_back(c);
+        size_t be = 0, bv = 0;
+        for (auto e : m.edges()) if (m.valence(e) > be) { be = m.valence(e); hot_e = e.idx(); }
+        for (auto v : m.vertices()) if (m.valence(v) > bv) { bv = m.valence(v); hot_v = v.idx(); }
         common();
     }
 
